@@ -372,27 +372,47 @@ def judge_case_files(prog, resp):
     files = [[n, t] for n, t in sorted(prog["files"].items())]
     code = resp.get("code", 103)
     tree = G.from_json(resp["ast"]) if code == 0 else []
-    return [2, files, prog["root"], code, tree]
+    return [2, files, prog["root"], code, tree, (resp.get("msg") or "").encode("utf8") if code == 1 else b""]
 
 
-REPAIRED_CHECK_TEXTS = [
-    b"\nservice Svc7 extends NoSuchSvc7 { void ping() }\n",
-    b"\nservice Svc7 extends nosuchinc.Svc { void ping() }\n",
-    b"\nservice Svc7 extends Svc7 {}\n",
-    b"\nservice Svc7 extends Svc6 {}\nservice Svc6 extends Svc7 {}\n",
-    b"\nservice Svc7 extends Svc6 {}\nservice Svc6 extends Svc5 {}\nservice Svc5 extends Svc6 { void ping() }\n",
-    b"\nstruct NotExc7 {}\nservice Svc7 { void f() throws (1: NotExc7 e) }\n",
-    b"\nservice Svc7 { void f() throws (1: string e) }\n",
-    b"\nexception Exc7 {}\nservice Svc7 { void f() throws (1: list<Exc7> e) }\n",
-    b"\nenum En7 { A }\ntypedef En7 Alias7\nservice Svc7 { i32 f() throws (1: Alias7 e) }\n",
-    b"\nstruct Dup7 { 1: i32 a, 2: string a }\n",
-    b"\nunion Dup7 { 1: i32 a; 2: i32 b; 3: i64 a }\n",
-    b"\nexception Dup7 { 1: string msg, 2: string msg }\n",
-    b"\nservice Svc7 { void f(1: i32 a, 2: i32 a) }\n",
-    b"\nexception Exc7 {}\nexception Exc6 {}\nservice Svc7 { void f() throws (1: Exc7 a, 1: Exc6 b) }\n",
-    b"\nexception Exc7 {}\nservice Svc7 { void f() throws (1: Exc7 a, 2: Exc7 a) }\n",
-    b"\nservice Svc7 { void f(1: i32 a, 1: i32 b) }\n",
+# (text, the diagnostic ParseFrugal must give); nbinc.frugal = NBINC is beside every one of them
+NBINC = b"service Base {}\nexception IncExc {}\nstruct IncS {}\n"
+REPAIRED_CHECKS = [
+    (b"\nservice Svc7 extends NoSuchSvc7 { void ping() }\n", "Invalid extends NoSuchSvc7 for service Svc7"),
+    (b"\nservice Svc7 extends nosuchinc.Svc { void ping() }\n", "Invalid extends nosuchinc.Svc for service Svc7"),
+    (b"\ninclude \"nbinc.frugal\"\nservice Svc7 extends nbinc.Nope { void ping() }\n", "Invalid extends nbinc.Nope for service Svc7"),
+    (b"\ninclude \"nbinc.frugal\"\nservice Svc7 extends nbinc.IncS {}\n", "Invalid extends nbinc.IncS for service Svc7"),
+    (b"\ninclude \"nbinc.frugal\"\nservice Svc7 extends nbinc.Base.x {}\n", "Invalid extends nbinc.Base.x for service Svc7"),
+    (b"\nservice Svc7 extends Svc7 {}\n", "Circular extends Svc7"),
+    (b"\nservice Svc7 extends Svc6 {}\nservice Svc6 extends Svc7 {}\n", "Circular extends Svc7"),
+    (b"\nservice Svc7 extends Svc6 {}\nservice Svc6 extends Svc5 {}\nservice Svc5 extends Svc6 { void ping() }\n",
+     "Circular extends Svc7"),
+    (b"\nstruct NotExc7 {}\nservice Svc7 { void f() throws (1: NotExc7 e) }\n",
+     "Invalid exception type NotExc7 for Svc7.f: not an exception"),
+    (b"\nservice Svc7 { void f() throws (1: string e) }\n", "Invalid exception type string for Svc7.f: not an exception"),
+    (b"\nexception Exc7 {}\nservice Svc7 { void f() throws (1: list<Exc7> e) }\n",
+     "Invalid exception type list for Svc7.f: not an exception"),
+    (b"\nenum En7 { A }\ntypedef En7 Alias7\nservice Svc7 { i32 f() throws (1: Alias7 e) }\n",
+     "Invalid exception type Alias7 for Svc7.f: not an exception"),
+    (b"\ninclude \"nbinc.frugal\"\nservice Svc7 { void f() throws (1: nbinc.IncS e) }\n",
+     "Invalid exception type nbinc.IncS for Svc7.f: not an exception"),
+    (b"\nstruct Dup7 { 1: i32 a, 2: string a }\n", "Duplicate field name a in struct Dup7"),
+    (b"\nunion Dup7 { 1: i32 a; 2: i32 b; 3: i64 a }\n", "Duplicate field name a in struct Dup7"),
+    (b"\nexception Dup7 { 1: string msg, 2: string msg }\n", "Duplicate field name msg in struct Dup7"),
+    (b"\nservice Svc7 { void f(1: i32 a, 2: i32 a) }\n", "Duplicate field name a in method Svc7.f"),
+    (b"\nexception Exc7 {}\nexception Exc6 {}\nservice Svc7 { void f() throws (1: Exc7 a, 1: Exc6 b) }\n",
+     "Duplicate field id 1 in method Svc7.f"),
+    (b"\nexception Exc7 {}\nservice Svc7 { void f() throws (1: Exc7 a, 2: Exc7 a) }\n",
+     "Duplicate field name a in method Svc7.f"),
+    (b"\nservice Svc7 { void f(1: i32 a, 1: i32 b) }\n", "Duplicate field id 1 in method Svc7.f"),
+    (b"\nstruct Dup7 { -4: i32 a, -4: i32 b }\n", "Duplicate field id -4 in struct Dup7"),
+    (b"\nstruct Dup7 { 0: i32 a, 5: i32 c, 0: i32 b }\n", "Duplicate field id 0 in struct Dup7"),
+    (b"\nservice Svc7 { void f(-2: i32 a, -2: i32 b) }\n", "Duplicate field id -2 in method Svc7.f"),
+    (b"\nexception Exc7 {}\nservice Svc7 { void f() throws (-1: Exc7 a, -1: Exc7 b) }\n",
+     "Duplicate field id -1 in method Svc7.f"),
+    (b"\nscope Sc7 prefix a.{zone}.b.{zone} { op: E }\n", "Duplicate prefix variable zone in scope Sc7"),
 ]
+REPAIRED_CHECK_TEXTS = [t for t, _ in REPAIRED_CHECKS if b"include" not in t]
 
 
 VALID_NEIGHBOUR_TEXTS = [
@@ -646,13 +666,22 @@ def run(ctx, br):
         progs.append({"files": {nm: txt}, "root": nm, "models": {}, "mutated": True, "expect": exp})
     # every check the repairs of validate added, each alone in a small file (all of them in every run), and their
     # valid neighbours
-    for i, txt in enumerate(REPAIRED_CHECK_TEXTS):
+    for i, (txt, msg) in enumerate(REPAIRED_CHECKS):
         nm = ("chk%d.frugal" % i).encode()
-        progs.append({"files": {nm: b"struct E {}\n" + txt}, "root": nm, "models": {}, "mutated": True,
-                      "expect": "reject", "fault": "invalid declaration " + repr(txt.strip().decode())})
+        progs.append({"files": {nm: b"struct E {}\n" + txt, b"nbinc.frugal": NBINC}, "root": nm, "models": {},
+                      "mutated": True, "expect": "reject", "fault": "invalid declaration " + repr(txt.strip().decode()),
+                      "fault_in": nm.decode(), "expect_msg": "^" + re.escape(msg) + "$"})
+        # and reached through an include: parseFrugal wraps the diagnostic of the included file
+        if i % 3 == 0:
+            top = ("top%d.frugal" % i).encode()
+            progs.append({"files": {top: b"include \"" + nm + b"\"\n", nm: b"struct E {}\n" + txt, b"nbinc.frugal": NBINC},
+                          "root": top, "models": {}, "mutated": True, "expect": "reject",
+                          "fault": "include of a file with the invalid declaration " + repr(txt.strip().decode()),
+                          "fault_in": nm.decode(),
+                          "expect_msg": "^" + re.escape("Include %s: %s" % (nm.decode(), msg)) + "$"})
     for i, txt in enumerate(VALID_NEIGHBOUR_TEXTS):
         nm = ("nb%d.frugal" % i).encode()
-        progs.append({"files": {nm: txt, b"nbinc.frugal": b"service Base {}\nexception IncExc {}\n"}, "root": nm,
+        progs.append({"files": {nm: txt, b"nbinc.frugal": NBINC}, "root": nm,
                       "models": {}, "mutated": True, "expect": "accept",
                       "fault": "valid declaration " + repr(txt.strip().decode())})
     preqs = []
